@@ -2,6 +2,7 @@ import PgmVerif.Props.C16
 open PgmVerif
 #print axioms PgmVerif.C16_perm_invariant
 #print axioms PgmVerif.C16_rename_den
+#print axioms PgmVerif.C16_rename_roundtrip
 #print axioms PgmVerif.C16_rename_joint
 #print axioms PgmVerif.C16_engine_history
 #print axioms PgmVerif.C16_sumOut_perm
